@@ -352,6 +352,19 @@ class Cons:
                 ln = ("len", seq)
                 TY.setdefault(ln, (64, False))
                 self.rel.append(("Le", const(len(lit[1])), ln))
+                if t[1].endswith("::starts_with"):
+                    # two literal prefixes of the same sequence must be compatible (one a prefix of the other)
+                    for t2, v2 in self.known.items():
+                        if v2 == 1 and t2 is not t and isinstance(t2, tuple) and t2[0] == "call" and t2[1].endswith("::starts_with") and len(t2[2]) == 2:
+                            s2, l2 = t2[2][0], t2[2][1]
+                            if isinstance(s2, tuple) and s2[0] == "&":
+                                s2 = s2[1]
+                            if isinstance(l2, tuple) and l2[0] == "&":
+                                l2 = l2[1]
+                            if s2 == seq and isinstance(l2, tuple) and l2[0] in ("bytes", "str"):
+                                a, b = lit[1], l2[1]
+                                if not (a.startswith(b) or b.startswith(a)):
+                                    return False
         if t[0] == "binop" and t[1] in CMP_OPS:
             op, a, b = t[1], t[2], t[3]
             if v == 0:
